@@ -45,6 +45,7 @@ let apply v (m : sim) (index : int) (tok : char) : sim =
   | 'd' -> fg (Change (Rem (n_of_int 0)))
   | 'a' -> fg (Change (Add (n_of_int 1, n_of_int 99)))
   | 'b' -> fg (Change (Add (n_of_int 7, n_of_int 5)))
+  | 'e' -> fg (Change (Rem (n_of_int 7)))
   | _ -> m
 
 let observe (m : sim) : string =
